@@ -201,6 +201,8 @@ macro_rules! agg {
         #[kani::proof]
         #[kani::unwind(12)]
         #[kani::stub(std::hash::RandomState::new, crate::verif::c13_aggregate::stub_random_state_new)]
+        #[kani::stub(std::fmt::format, crate::verif::env::stub_format)]
+        #[kani::stub(crate::linux::maps_reader::is_mapping_a_path, crate::verif::c13_aggregate::naive_is_path)]
         fn $name() {
             use Nm::*;
             run::<$n>($names, $gate);
@@ -212,6 +214,8 @@ macro_rules! aggg {
         #[kani::proof]
         #[kani::unwind(12)]
         #[kani::stub(std::hash::RandomState::new, crate::verif::c13_aggregate::stub_random_state_new)]
+        #[kani::stub(std::fmt::format, crate::verif::env::stub_format)]
+        #[kani::stub(crate::linux::maps_reader::is_mapping_a_path, crate::verif::c13_aggregate::naive_is_path)]
         fn $name() {
             use Nm::*;
             run_g::<$n>($names, false, Some($gaps));
@@ -223,6 +227,9 @@ aggg!(c13_2_same_apart, 2, [A, A], [0, 1]);
 aggg!(c13_2_diff_adjacent, 2, [A, B], [0, 0]);
 aggg!(c13_2_file_anon_adjacent, 2, [A, Anon], [0, 0]);
 aggg!(c13_3_fold_adjacent, 3, [A, Anon, A], [0, 0, 0]);
+agg!(c13_1_file, 1, [A], false);
+agg!(c13_1_heap, 1, [Heap], false);
+agg!(c13_1_deleted, 1, [ADeleted], false);
 agg!(c13_2_same, 2, [A, A], false);
 agg!(c13_2_deleted_same, 2, [ADeleted, A], false);
 agg!(c13_2_diff, 2, [A, B], false);
@@ -240,3 +247,68 @@ agg!(c13_2_heap_anon, 2, [Heap, Anon], false);
 agg!(c13_2_anon_vdso_gate, 2, [Anon, Vdso], true);
 agg!(c13_3_heap_heap_heap, 3, [Heap, Heap, Heap], false);
 agg!(c13_3_anon_heap_anon, 3, [Anon, Heap, Anon], false);
+
+/// Byte-loop reference for `is_mapping_a_path` ("contains a slash"). It replaces the real function
+/// (std `contains` -> memchr) inside the aggregate harnesses: CBMC does not fold the niche-encoded
+/// discriminant of `MMapPath`, so every arm of the name match is explored and the merged name pointer
+/// reaches memchr_aligned with a symbolic length (17 GB+ for ONE line; 11 s with the byte loop).
+/// The equivalence of the two is decided below (`c13_is_path_eq_*`).
+pub fn naive_is_path(p: Option<&std::ffi::OsStr>) -> bool {
+    use std::os::unix::ffi::OsStrExt;
+    match p {
+        None => false,
+        Some(x) => {
+            let b = x.as_bytes();
+            let mut i = 0;
+            while i < b.len() {
+                if b[i] == b'/' {
+                    return true;
+                }
+                i += 1;
+            }
+            false
+        }
+    }
+}
+
+// ---- the stub used above (`naive_is_path`) is justified here: the real `is_mapping_a_path`
+// (std's memchr-based `contains`) agrees with the byte loop for every byte string of the given length ----
+fn is_path_eq<const N: usize>() {
+    use crate::linux::maps_reader::verif_is_mapping_a_path;
+    use std::os::unix::ffi::OsStringExt;
+    let b: [u8; N] = kani::any();
+    let o = OsString::from_vec(b.to_vec());
+    let real = verif_is_mapping_a_path(Some(o.as_os_str()));
+    let naive = naive_is_path(Some(o.as_os_str()));
+    assert_eq!(real, naive, "is_mapping_a_path == 'contains a slash' (byte loop)");
+    kani::cover!(real, "a path");
+    kani::cover!(!real, "not a path");
+    assert!(!verif_is_mapping_a_path(None));
+    core::mem::forget(o);
+}
+macro_rules! ipe {
+    ($name:ident, $n:expr) => {
+        #[kani::proof]
+        #[kani::unwind(34)]
+        fn $name() {
+            is_path_eq::<$n>();
+        }
+    };
+}
+ipe!(c13_is_path_eq_len1, 1);
+ipe!(c13_is_path_eq_len2, 2);
+ipe!(c13_is_path_eq_len6, 6);
+ipe!(c13_is_path_eq_len13, 13);
+ipe!(c13_is_path_eq_len15, 15);
+ipe!(c13_is_path_eq_len16, 16);
+ipe!(c13_is_path_eq_len24, 24);
+#[kani::proof]
+#[kani::unwind(4)]
+fn c13_is_path_eq_len0() {
+    use crate::linux::maps_reader::verif_is_mapping_a_path;
+    let o = OsString::new();
+    assert!(!verif_is_mapping_a_path(Some(o.as_os_str())));
+    assert!(!naive_is_path(Some(o.as_os_str())));
+    assert!(!verif_is_mapping_a_path(None) && !naive_is_path(None));
+    kani::cover!(true, "reached the end");
+}
